@@ -42,6 +42,23 @@ class Ctx(object):
                     self.unknown_funcs.add(n)
         sym.AUTO_INLINE = set(self.unknown_funcs)
         self._owners = None
+        # a helper that calls itself (directly or through other helpers) cannot be explored in place: it stays a call
+        try:
+            cg_ = self.callgraph
+            for h in list(sym.AUTO_INLINE):
+                seen_, work_ = set(), list(cg_.get(h, ()))
+                while work_:
+                    x = work_.pop()
+                    if x == h:
+                        sym.AUTO_INLINE.discard(h)
+                        break
+                    if x in seen_ or x not in self.unknown_funcs:
+                        continue
+                    seen_.add(x)
+                    work_.extend(cg_.get(x, ()))
+        except Exception:
+            pass
+        self._owners = None
         # fresh-returning functions are computed from the IR (a renamed or new allocation wrapper is picked up)
         from . import ownership
         self.fresh_returning = summaries.fresh_returning(self.modules)
